@@ -46,15 +46,17 @@ EvMatch(r, e) ==
          [] OTHER -> FALSE
 
 \* steps of the specification that leave no record in a trace
-Silent(r) == r.op = "tau" \/ (r.op = "alg" /\ Kind # "dummy")
+Silent(r) == r.op \in {"tau", "sub"} \/ (r.op = "alg" /\ Kind # "dummy")
 
 StateViol ==
-    {n \in {"AlwaysACompleteFile", "NeverOnlyPartial", "MeasPrefixOfIdeal", "FinalEqual", "ResumeRuns"} :
+    {n \in {"AlwaysACompleteFile", "NeverOnlyPartial", "MeasPrefixOfIdeal", "FinalEqual", "ResumeRuns",
+            "SavedIsCheckpoint"} :
         \/ n = "AlwaysACompleteFile" /\ ~AlwaysACompleteFile
         \/ n = "NeverOnlyPartial" /\ ~NeverOnlyPartial
         \/ n = "MeasPrefixOfIdeal" /\ ~MeasPrefixOfIdeal
         \/ n = "FinalEqual" /\ ~FinalEqual
-        \/ n = "ResumeRuns" /\ ~ResumeRuns}
+        \/ n = "ResumeRuns" /\ ~ResumeRuns
+        \/ n = "SavedIsCheckpoint" /\ ~SavedIsCheckpoint}
 
 \* evaluated on the projection of the real files, not on the spec state
 RealViol(e) ==
@@ -65,6 +67,7 @@ RealViol(e) ==
 ViolCode(S) == (IF "AlwaysACompleteFile" \in S THEN 1 ELSE 0) + (IF "NeverOnlyPartial" \in S THEN 2 ELSE 0)
              + (IF "MeasPrefixOfIdeal" \in S THEN 4 ELSE 0) + (IF "FinalEqual" \in S THEN 8 ELSE 0)
              + (IF "ResumeRuns" \in S THEN 16 ELSE 0) + (IF "RealNoCompleteFile" \in S THEN 32 ELSE 0)
+             + (IF "SavedIsCheckpoint" \in S THEN 64 ELSE 0)
 
 TraceInit == /\ Init
              /\ tid \in 1..Len(Traces)
